@@ -448,14 +448,43 @@ func r044(c *an.Ctx) {
 }
 
 func isRangeIndex(v ssa.Value) bool {
-	// a phi in a rangeindex.loop block incremented by 1
-	ph, ok := v.(*ssa.Phi)
-	if ok && strings.HasPrefix(ph.Block().Comment, "rangeindex") {
-		return true
+	// an ascending position: the counter of `for i := range xs` (go/ssa: phi(-1, t) with t = phi+1, used as t) or of
+	// `for i := 0; …; i++` (phi(0, phi+1), used as the phi), whatever the loop is called
+	counter := func(ph *ssa.Phi) (init int64, ok bool) {
+		if len(ph.Edges) != 2 {
+			return 0, false
+		}
+		for k := 0; k < 2; k++ {
+			c0, isC := an.ConstInt(ph.Edges[k])
+			inc, isInc := ph.Edges[1-k].(*ssa.BinOp)
+			if !isC || !isInc || inc.Op != token.ADD {
+				continue
+			}
+			one, isOne := an.ConstInt(inc.Y)
+			if inc.X == ssa.Value(ph) && isOne && one == 1 {
+				return c0, true
+			}
+		}
+		return 0, false
+	}
+	if ph, ok := v.(*ssa.Phi); ok {
+		if init, isCounter := counter(ph); isCounter && init == 0 {
+			return true
+		}
+		if strings.HasPrefix(ph.Block().Comment, "rangeindex") {
+			return true
+		}
 	}
 	if bo, ok := v.(*ssa.BinOp); ok && bo.Op == token.ADD {
-		if ph, ok := bo.X.(*ssa.Phi); ok && strings.HasPrefix(ph.Block().Comment, "rangeindex") {
-			return true
+		if ph, ok := bo.X.(*ssa.Phi); ok {
+			if one, isOne := an.ConstInt(bo.Y); isOne && one == 1 {
+				if init, isCounter := counter(ph); isCounter && init == -1 {
+					return true
+				}
+			}
+			if strings.HasPrefix(ph.Block().Comment, "rangeindex") {
+				return true
+			}
 		}
 	}
 	return false
